@@ -54,7 +54,8 @@ def fullLimit : Nat := 4000
 
 /-- shape of an array spelling, without building the elements -/
 def shapeOf? (s : String) : Option (List Nat) :=
-  if s.startsWith "i" then parseNatList? (((s.drop 1).toString.splitOn "+").headD "")
+  if s.startsWith "iota:" then parseNatList? (s.drop 5).toString   -- giant arrays (part 3): named by their shape only
+  else if s.startsWith "i" then parseNatList? (((s.drop 1).toString.splitOn "+").headD "")
   else match s.splitOn ":" with
     | [sh, _] => parseNatList? sh
     | _ => none
@@ -81,6 +82,9 @@ def member (a : String) (s : String) : Option String := do
 def handleX (op : String) (args : List String) : Option String :=
   match op, args with
   | "huge", [a, s] => do let shape ← shapeOf? a; planOf shape s
+  -- part 3: more than 2^20 elements (`iota:<shape>`, built by the harness); `giant8` = the u8 image only (above 2^24 elements)
+  | "giant", [a, s] => do let shape ← shapeOf? a; planOf shape s
+  | "giant8", [a, s] => do let shape ← shapeOf? a; planOf shape s
   | "pair", [a, b, s] => do let x ← member a s; let y ← member b s; some (x ++ " ; " ++ y)
   | "audit", [] => some "ok audit"
   | _, _ => handle op args
